@@ -250,7 +250,29 @@ func GenPat(t *rapid.T, depth int, o PatOpts) *Pat {
 	case 12:
 		// corner shapes: an empty alternative, a repetition whose body can match nothing
 		x := GenPat(t, depth-1, o)
-		switch rapid.IntRange(0, 11).Draw(t, "corner") {
+		switch rapid.IntRange(0, 15).Draw(t, "corner") {
+		case 12, 13:
+			// alternatives that share their first byte with an earlier alternative that is not their neighbour
+			set := rapid.SampledFrom([][]string{{"begin", "end", "break"}, {"<=", ">=", "<>", "=="}, {"ab", "c", "ac"}, {"é1", "x", "é2"}, {"if", "else", "in"}}).Draw(t, "kwset")
+			alt := &Pat{Kind: "alt"}
+			for _, w := range set {
+				alt.Kids = append(alt.Kids, &Pat{Kind: "lit", Text: w})
+			}
+			g := &Pat{Kind: "group", Cap: rapid.IntRange(0, 3).Draw(t, "altcap") == 0, Kids: []*Pat{alt}}
+			if rapid.Bool().Draw(t, "kwalone") {
+				return g
+			}
+			return &Pat{Kind: "cat", Kids: []*Pat{g, x}}
+		case 14, 15:
+			// the same letters once as written and once case-insensitively, in one pattern: NULL|(?i:null)able
+			w := rapid.SampledFrom([]string{"NULL", "0X", "K", "AB", "Sk"}).Draw(t, "samelit")
+			plain := &Pat{Kind: "lit", Text: w}
+			folded := &Pat{Kind: "cat", Kids: []*Pat{{Kind: "icase", Kids: []*Pat{{Kind: "lit", Text: strings.ToLower(w)}}}, {Kind: "lit", Text: rapid.SampledFrom([]string{"able", "1", "é"}).Draw(t, "sametail")}}}
+			kids := []*Pat{plain, folded}
+			if rapid.Bool().Draw(t, "sameorder") {
+				kids = []*Pat{folded, plain}
+			}
+			return &Pat{Kind: "group", Kids: []*Pat{{Kind: "alt", Kids: kids}}}
 		case 10, 11:
 			// alternatives of which an earlier one is a prefix of a later one (leftmost-first: the shorter one wins;
 			// the regexp parser factors them into prefix(?:|rest))
